@@ -5,7 +5,7 @@ ids=${@:-C01 C02 C03 C04 C05 C06 C07 C08 C09 C10 C11 C12 C13 C14 C15 C16 C17 C18
 mkdir -p /tmp/runall
 for id in $ids; do
   s=$(date +%s)
-  VERIF_SEED=$seed /verif/check $id --tier $tier > /tmp/runall/$id.$tier.$seed.log 2>&1
+  SYMX_HONOR_SEED=1 VERIF_SEED=$seed /verif/check $id --tier $tier > /tmp/runall/$id.$tier.$seed.log 2>&1
   rc=$?
   echo "$id $tier seed=$seed exit=$rc $(( $(date +%s) - s ))s $(tail -1 /tmp/runall/$id.$tier.$seed.log | cut -c1-200)"
 done
